@@ -158,8 +158,12 @@ def search(strength, rng, replay=None):
         grids += [("screen3x2", G.screen(3, 2)), ("two-components", G.two_components()), ("tetrahedron", G.tetrahedron())]
     params = [0.25, 0.5, 0.8125]
 
+    per_sig = {}
+
     def fail(sig, what, data):
-        if len(failures) < 40:
+        # at most three examples per signature, so that a frequent (known) failure cannot crowd out a new one
+        per_sig[sig] = per_sig.get(sig, 0) + 1
+        if per_sig[sig] <= 3:
             failures.append({"signature": sig, "what": what, "data": data})
 
     for gname, grid in grids:
